@@ -162,6 +162,50 @@ func genRT(name string) func(t *rapid.T) RT {
 	}
 }
 
+// ---------------------------------------------------------------- roundtrip/mixed-types
+
+// MixedRT is a short history: round trips of values of several family types
+// one after another in one process, so that anything the library keeps between
+// calls (per-type tables, scratch buffers) is exercised across types.
+type MixedRT struct {
+	Steps []RT `json:"steps"`
+}
+
+func genMixed(t *rapid.T) MixedRT {
+	n := rapid.IntRange(2, 4).Draw(t, "steps")
+	structs := []string{"LocalRecA", "LocalRecB", "StructFlat", "StructCase", "StructPtrs", "StructDyn", "PtrStructFlat", "MapStructFlat"}
+	var in MixedRT
+	for i := 0; i < n; i++ {
+		var name string
+		if rapid.IntRange(0, 3).Draw(t, "structy") != 0 {
+			name = rapid.SampledFrom(structs).Draw(t, "type")
+		} else {
+			name = rapid.SampledFrom(familyNames).Draw(t, "type")
+		}
+		in.Steps = append(in.Steps, genRT(name)(t))
+	}
+	return in
+}
+
+func checkMixed(c *facet.Ctx, in MixedRT) error {
+	seen := map[string]bool{}
+	for i, st := range in.Steps {
+		seen[st.Type] = true
+		if err := checkRoundTrip(c, st); err != nil {
+			f := facet.AsFailure(err)
+			f.Msg = fmt.Sprintf("step %d of %d (type %s): %s", i+1, len(in.Steps), st.Type, f.Msg)
+			return f
+		}
+	}
+	if len(seen) >= 2 {
+		c.NonTrivial()
+	}
+	if seen["LocalRecA"] && seen["LocalRecB"] {
+		c.Label("same-name-different-types")
+	}
+	return nil
+}
+
 // ---------------------------------------------------------------- numeric facets
 
 // NumCase is one number decoded into one numeric target type.
@@ -516,6 +560,14 @@ func init() {
 			Check: checkRoundTrip,
 		})
 	}
+
+	facet.Register(facet.F[MixedRT]{
+		Prop: "C18", Name: "roundtrip/mixed-types",
+		Rule:  "2-4 round trips (as in roundtrip/<type>) of values of different family types one after another in one process, biased to the struct types, among them two distinct struct types that share their name (function-local types) but not their layout; non-trivial when at least two different types occur. Distinct = hash of the input JSON.",
+		Quick: 20000, Thorough: 150000, Shards: 4,
+		Gen:   genMixed,
+		Check: checkMixed,
+	})
 
 	facet.Register(facet.F[NumCase]{
 		Prop: "C18", Name: "numeric/boundary-table",
